@@ -78,7 +78,19 @@ Corrupt(ts, kind, i) ==
     [] kind = "junk" -> [ts EXCEPT ![i] = Junk]
     [] kind = "swap" -> IF i < Len(ts) THEN [ts EXCEPT ![i] = ts[i + 1], ![i + 1] = ts[i]] ELSE ts
 
-CONSTANT Mode, StyleDepth     \* "styles" | "corrupt" | "roundtrip"
+\* JSON spellings of a transaction accepted on input (MCP tools, serde): money as a plain string or number (GBP only)
+\* or as an {amount, currency} object; action and ticker in any letter case; a zero fee/tax left out or spelt out;
+\* CAP_RETURN as an alias of CAPRETURN
+JsonShapes == [money : {"string", "object", "number"}, action : {"upper", "lower", "mixed"}, ticker : {"upper", "lower"},
+               zero_clause : {"omit", "spell"}, capret : {"CAPRETURN", "CAP_RETURN"}]
+IsIntLit(x) == x \in {"7", "0", "10", "2"}
+ShapeApplies(tx, sh) ==
+  /\ (sh.capret = "CAP_RETURN" => tx.cmd = "CAPRETURN")
+  /\ (sh.zero_clause = "spell" => (tx.cmd \notin {"SPLIT", "UNSPLIT"} /\ IsZeroLit(tx.f.extra)))
+  /\ (sh.money = "number" => (tx.cmd \notin {"SPLIT", "UNSPLIT"} /\ tx.f.cur = "GBP" /\ IsIntLit(tx.f.amount)))
+  /\ (sh.money = "string" => (tx.cmd \in {"SPLIT", "UNSPLIT"} \/ tx.f.cur = "GBP"))
+
+CONSTANT Mode, StyleDepth     \* "styles" | "corrupt" | "roundtrip" | "json"
 
 Init ==
   \/ /\ Mode = "styles"
@@ -88,8 +100,15 @@ Init ==
      /\ \E tx \in {t \in TxSet : t.ticker = "AAA" /\ t.f.qty \in {"10", ""} /\ t.f.amount \in {"150.00", "2"}},
            kind \in {"delete", "dup", "junk", "swap"}, s \in NearPlain(1) : \E sp \in Spellings(tx) : \E i \in 1..Len(sp) :
           line = Corrupt(sp, kind, i) /\ base = tx /\ style = s /\ corr = <<kind, i>>
+  \/ /\ Mode = "json"
+     /\ \E tx \in {t \in TxSet : t.ticker = "AAA" /\ t.cmd = "SPLIT" /\ t.f.amount = "2"} : line = Write(tx) /\ base = tx /\ style = PlainStyle /\ corr = <<>>
   \/ /\ Mode = "roundtrip"
      /\ \E tx \in RtTxSet : line = Write(tx) /\ base = tx /\ style = PlainStyle /\ corr = <<>>
+JsonCases == {<<tx, sh>> \in TxSet \X JsonShapes : ShapeApplies(tx, sh)}
+EmitJson ==
+  Mode = "json" =>
+    \A c \in JsonCases : PrintT(<<"JSN", ToJson([meaning |-> Normal(c[1]), shape |-> c[2]])>>)
+ASSUME EmitJson
 Next == UNCHANGED vars
 Spec == Init /\ [][Next]_vars
 
